@@ -427,6 +427,30 @@ func (p *Prog) calleesOf(call ssa.CallInstruction) []*ssa.Function {
 }
 
 // funcValuesOf: repo functions a value may denote when passed to a library function.
+// staticSitesOf: the static call sites of fn in shipped code; for a generic function, the calls of
+// its instantiations (go/ssa analyses the generic body once, the callers call the instances).
+func (p *Prog) staticSitesOf(fn *ssa.Function) []ssa.CallInstruction {
+	var out []ssa.CallInstruction
+	for _, f := range p.Funcs {
+		for _, b := range f.Blocks {
+			for _, in := range b.Instrs {
+				ci, ok := in.(ssa.CallInstruction)
+				if !ok {
+					continue
+				}
+				g := ci.Common().StaticCallee()
+				if g == nil {
+					continue
+				}
+				if g == fn || (g.Origin() != nil && g.Origin() == fn) {
+					out = append(out, ci)
+				}
+			}
+		}
+	}
+	return out
+}
+
 func (p *Prog) funcValuesOf(v ssa.Value) []*ssa.Function {
 	return p.funcValuesRec(v, map[ssa.Value]bool{})
 }
